@@ -18,6 +18,40 @@ def all_paths(depth=3, names=NAMES):
     return out
 
 
+def rename_components(case, mapping):
+    """the same case with path components renamed (e.g. b -> ab: sibling names one of which is a string prefix of the
+    other - `out/a` versus `out/ab` - which code that compares paths as strings gets wrong)"""
+    import copy
+    c = copy.deepcopy(case)
+
+    def rp(p):
+        if not isinstance(p, str) or p == '':
+            return p
+        return '/'.join(mapping.get(x, x) for x in p.split('/'))
+
+    def stmts(ss):
+        for st in ss:
+            if not isinstance(st, list) or not st:
+                continue
+            if st[0] == 'bf':
+                st[1] = rp(st[1])
+            elif st[0] == 'q':
+                st[2] = rp(st[2])
+            elif st[0] == 'if':
+                stmts(st[2]); stmts(st[3])
+    for n in c.get('tree', []):
+        n[0] = rp(n[0])
+    for f in c.get('funcs', []):
+        stmts(f.get('stmts', []))
+    for st in c.get('steps', []):
+        if st and st[0] == 'mut':
+            st[2] = rp(st[2])
+    if 'cache' in c:
+        c['cache'] = rp(c['cache'])
+    c['renamed'] = mapping
+    return c
+
+
 PATHS = all_paths(3)
 PATHS2 = all_paths(2)
 QUERY_KINDS = ['is_file', 'is_dir', 'exists', 'list_dir', 'walk', 'get_size', 'read']
@@ -701,6 +735,30 @@ def scen_olddir_becomes_target(rng):
     return {'tree': [[d, 'dir']] if rng.random() < 0.5 else [], 'funcs': funcs, 'steps': steps}
 
 
+def scen_prefix_siblings(rng):
+    """sibling directories one of whose names is a string prefix of the other (a, ab): one holds an output of the
+    previous build that is reused, the other is made by a build that then fails - or the other way round"""
+    d = rng.choice(NAMES)
+    long_, short = ('%s/ab' % d, '%s/a' % d) if rng.random() < 0.7 else ('%s/a' % d, '%s/ab' % d)
+    x = '%s/x' % long_
+    y = '%s/%s' % (short, rng.choice(['y', 'sub/y']))
+    funcs = [
+        _fn('f0', [['if', ['arg', _e(0)], [_bf(x, 1, catch=True, cmp_=rng.choice('MH'))],
+                    [_bf(x, 1, catch=True, cmp_=rng.choice('MH')), _bf(y, 1, arg=1, catch=True)]]] + _probe(rng, [d, long_, short, ''], 2)),
+        _fn('f1', [['w', None]]),
+    ]
+    funcs.append(_fn('rootfail', funcs[0]['stmts'] + [['raise', 99]]))
+    steps = [_build(arg=0), _build(arg=1, root=2), _build(arg=0)]
+    tail = rng.choice(['clean', 'build', 'fail_again'])
+    if tail == 'clean':
+        steps.append(['clean', 'n'])
+    elif tail == 'build':
+        steps += [_build(arg=1), _build(arg=0), ['clean', 'n']]
+    else:
+        steps += [_build(arg=1, root=2), ['clean', 'n']]
+    return {'tree': [[d, 'dir']] if rng.random() < 0.3 else [], 'funcs': funcs, 'steps': steps}
+
+
 def scen_selfread(rng):
     """a build_file function that looks at its own target while it is writing it (the target is invisible to it:
     FileNotFoundError), writes it in two steps, and is later read back by a sibling - with HASH nothing may be
@@ -721,7 +779,7 @@ def scen_selfread(rng):
     return {'tree': [], 'funcs': funcs, 'steps': steps}
 
 
-SCENARIOS = [scen_nested_failure, scen_swap, scen_stale_dir, scen_dups, scen_versions, scen_reads, scen_identity, scen_foreign_swap, scen_sibling_failure, scen_todir, scen_selfread, scen_file_becomes_parent, scen_olddir_becomes_target]
+SCENARIOS = [scen_nested_failure, scen_swap, scen_stale_dir, scen_dups, scen_versions, scen_reads, scen_identity, scen_foreign_swap, scen_sibling_failure, scen_todir, scen_selfread, scen_file_becomes_parent, scen_olddir_becomes_target, scen_prefix_siblings]
 
 
 def gen_scenario_cases(seed, per_family, dirsize=4096, families=SCENARIOS):
